@@ -42,6 +42,7 @@ type RunState struct {
 	memo     map[string]*randomness.TestResult
 	prelude  bool
 	companions []string
+	nested   []string
 	ncalls   int
 }
 
@@ -138,14 +139,28 @@ func (st *RunState) addCompanion(id string) {
 	st.mu.Unlock()
 }
 
+// addNested registers a task whose descendants belong to a detection nested
+// inside a device Read (the task itself keeps working for the observed call).
+func (st *RunState) addNested(id string) {
+	st.mu.Lock()
+	st.nested = append(st.nested, id)
+	st.mu.Unlock()
+}
+
 func (st *RunState) fromCompanion() bool {
 	st.mu.Lock()
 	cs := st.companions
+	ns := st.nested
 	st.mu.Unlock()
-	if len(cs) == 0 {
+	if len(cs) == 0 && len(ns) == 0 {
 		return false
 	}
 	id := simrt.CurrentID()
+	for _, c := range ns {
+		if len(id) > len(c) && id[:len(c)] == c && id[len(c)] == '.' {
+			return true
+		}
+	}
 	for _, c := range cs {
 		if id == c || (len(id) > len(c) && id[:len(c)] == c && id[len(c)] == '.') {
 			return true
@@ -282,7 +297,7 @@ func BuildMatrix(sp RunnerSpec, s int) [][]Cell {
 				q = 1 - q
 				b = 9
 			}
-			if item == 3 && f%2 == 1 {
+			if item == 3 && (f%2 == 1 || d.P2Only) {
 				// fullest bin, mid-range Q1; the failure is in P2
 				mx := 0
 				for i := range bins {
